@@ -137,3 +137,78 @@ def term_ops(t):
     if rest:
         return f"{op}({rest})"
     return op
+
+
+# ---------------------------------------------------------------------------- object chains (Objects.tla)
+
+def obj_body(b, mname):
+    k = b["k"]
+    if k == "const":
+        return str(b["n"])
+    if k == "self":
+        return f"self.{b['g']}"
+    if k == "dollar":
+        return f"$.{b['g']}"
+    if k == "local":
+        return f"l_{mname}"
+    if k == "super":
+        return f"super.{b['g']}"
+    if k == "superplus":
+        return f"super.{b['g']} + {b['n']}"
+    if k == "insuper":
+        return f"(if '{b['g']}' in super then 1 else 0)"
+    if k == "selfplus":
+        return f"self.{b['g']} + {b['n']}"
+    raise ValueError(k)
+
+
+def obj_layer(layer, probes=False):
+    parts = []
+    for name in ("a", "b"):
+        m = layer["ms"][name]
+        if m["p"] and m["b"]["k"] == "local":
+            parts.append(f"local l_{name} = self.{m['b']['g']}")
+    a = layer["as"]
+    if a["k"] == "eq":
+        parts.append(f"assert self.{a['g']} == {a['n']}")
+    elif a["k"] == "has":
+        parts.append(f"assert '{a['g']}' in self")
+    for name in ("a", "b"):
+        m = layer["ms"][name]
+        if m["p"]:
+            parts.append(f"{name}{'+' if m['plus'] else ''}{m['vis']} {obj_body(m['b'], name)}")
+    if probes:
+        j = probes
+        for f in ("a", "b"):
+            parts.append(f"ps{j}{f}:: super.{f}")
+            parts.append(f"ph{j}{f}:: '{f}' in super")
+    return "{" + ", ".join(parts) + "}"
+
+
+def obj_chain(chain, style=0, probes=False):
+    """chain of Objects.tla -> Jsonnet expression. style 0: `a + b`, style 1: `a { ... }` where possible."""
+    parts = []  # (expr, nlayers, is_literal)
+    for j, layer in enumerate(chain, start=1):
+        if layer["omit"]:
+            k = layer["k"]
+            taken, cnt = [], 0
+            while cnt < k:
+                e = parts.pop()
+                taken.insert(0, e)
+                cnt += e[1]
+            assert cnt == k, "omit does not align with the rendered segments"
+            inner = join_parts(taken, style)
+            parts.append((f"std.objectRemoveKey({inner}, '{layer['f']}')", k + 1, False))
+        else:
+            parts.append((obj_layer(layer, j if probes else False), 1, True))
+    return join_parts(parts, style)
+
+
+def join_parts(parts, style):
+    out = parts[0][0]
+    for e, _, is_lit in parts[1:]:
+        if style == 1 and is_lit:
+            out = f"{out} {e}"
+        else:
+            out = f"{out} + {e}"
+    return f"({out})"
